@@ -1,4 +1,6 @@
 mod common;
+mod crash;
+mod rt;
 mod seq;
 mod sut;
 
@@ -42,6 +44,10 @@ fn main() {
     install_panic_hook();
     let _ = replay;
     let code = match id.as_str() {
+        "C01" => crash::c01(tier),
+        "C02" => crash::c02(tier),
+        "C08" => crash::c08(tier),
+        "C17" => crash::c17(tier),
         "C04" => seq::c04(tier),
         "C05" => seq::c05(tier),
         "C06" => seq::c06(tier),
